@@ -95,6 +95,7 @@ def canon(w: c20.World):
         "ev": [{"len": len(e), "dt": c20._layout_name(e.dtype)} for e in w.ev],
         "tcs": [{"times": [int(t) for t in tc.times], "ems": [{"len": len(e), "dt": c20._layout_name(e.dtype)} for e in tc.emulsions]} for tc in w.tcs],
         "trks": [{"times": [int(t) for t in tr.times], "len": len(tr.droplets)} for tr in w.trks],
+        "tls": [[1 + next(i for i, tr in enumerate(w.trks) if tr is x) for x in tl] for tl in w.tls],
         "narr": narr,
     }
 
@@ -198,6 +199,14 @@ def candidates(w: c20.World, rng):
             ops.append({"op": "TrkCopy", "k": k})
         if len(tr.droplets) and nr < MAXREFS:
             ops.append({"op": "TrkIndex", "k": k, "i": rng.randint(1, len(tr.droplets))})
+        if len(w.tls) < 3:
+            ops.append({"op": "TlNew", "L": [rng.randint(1, len(w.trks)) for _ in range(rng.randint(0, 3))]})
+    if w.tls:
+        l = rng.randint(1, len(w.tls))
+        if len(w.tls) < 3:
+            lo = rng.randint(0, len(w.tls[l - 1]))
+            ops.append({"op": "TlSlice", "l": l, "lo": lo, "hi": rng.randint(lo, len(w.tls[l - 1]))})
+        ops.append({"op": "TlRemoveShort", "l": l, "md": rng.choice([-1, 0, 2])})
     return ops
 
 
